@@ -199,3 +199,13 @@ Qed.
 
 (* a formatter that writes a malformed token for negative values *)
 Definition fmt_bad (x : Qc) : ftok := FTok false (Qnum x).
+
+(* ------------------------------------------------------------------ a file whose last line is
+   incomplete (5 tokens, nvars = 2) read into a 4-node mesh holding 7s: no error, two nodes, and
+   the missing second variable of the last node is the stale 7 of the mesh read into
+   (observed on the implementation with the same file: vars[1] = [5, <old value>]) *)
+Example read_incomplete_line_run :
+  meshQ_view (@read1 AQ ftok (parse_fix 0) ex_r0
+                [FTok false 1; FTok false 2; FTok false 3; FTok false 4; FTok false 5]) =
+  Some (2%nat, [1; 4], [[2; 3]; [5; 7]]).
+Proof. vm_compute. reflexivity. Qed.
